@@ -150,11 +150,22 @@ static Bytes textOf(const Bytes &dst, bool &ok) {
 static bool has(const Bytes &s, unsigned char c) { for (unsigned char x : s) if (x == c) return true; return false; }
 static Bytes take(const Bytes &s, size_t n) { return Bytes(s.begin(), s.begin() + std::min(n, s.size())); }
 static bool isPrefix(const Bytes &a, const Bytes &b) { return a.size() <= b.size() && std::equal(a.begin(), a.end(), b.begin()); }
-// ITU-R M.1371 table 14 filter as the property states it: upper-case, outside 0x20..0x5F -> '?'
-static unsigned char aisRef(unsigned char c) {
-  if (c >= 'a' && c <= 'z') c = (unsigned char)(c - 'a' + 'A');
-  return (c >= 0x20 && c <= 0x5F) ? c : '?';
+// What the property states for AIS text: "upper-cased with characters outside the AIS alphabet replaced". It does not say by
+// WHICH character, so a character inside the alphabet (after upper-casing) must come out exactly, one outside must come out as
+// some character of the alphabet other than the padding '@' (which would cut the text).
+static bool aisMatches(unsigned char in, unsigned char out) {
+  if (in >= 'a' && in <= 'z') in = (unsigned char)(in - 'a' + 'A');
+  if (in >= 0x20 && in <= 0x5F) return out == in;
+  return out >= 0x20 && out <= 0x5F && out != '@';
 }
+static bool aisTextMatches(const Bytes &in, const Bytes &out) {
+  if (in.size() != out.size()) return false;
+  for (size_t i = 0; i < in.size(); i++) if (!aisMatches(in[i], out[i])) return false;
+  return true;
+}
+// replacements the node uses where the property only says "replaced": learned from the node itself at start-up (learnReplacements)
+static Bytes g_repU4 = {'?'};                 // UTF-8 text read back for a character beyond the BMP stored in a UCS-2 field
+static Bytes g_repA[5] = {{'?'}, {'?'}, {'?'}, {'?'}, {'?'}};   // bytes stored in an ASCII-only field for a 2-/3-/4-byte character
 
 // ---------------------------------------------------------------------------------------------- add ops
 // shared part of every add: guard run, two malloc runs with different stale bytes, safety oracle.
@@ -206,8 +217,8 @@ static void opAddAis(int fill, int max, int junk, const Bytes &s) {
   int k = std::min(max, 223 - fill);
   if (r.len != fill + k) C.fail("C16:addais:length", "DataLen %d != %d+min(%d,free)", r.len, fill, max);
   for (int i = 0; i < k; i++) {
-    unsigned char e = (size_t)i < s.size() ? aisRef(s[i]) : '@';
-    if (r.data[fill + i] != e) { C.fail("C16:addais:content", "byte %d of the field is %02x, expected %02x", i, r.data[fill + i], e); break; }
+    bool okc = (size_t)i < s.size() ? aisMatches(s[i], r.data[fill + i]) : r.data[fill + i] == '@';
+    if (!okc) { C.fail("C16:addais:content", "byte %d of the field is %02x for input %02x", i, r.data[fill + i], (size_t)i < s.size() ? s[i] : 0); break; }
   }
   C.nontrivial("addais " + std::to_string(fill) + " " + std::to_string(max) + " " + std::to_string(s.size()));
 }
@@ -312,8 +323,11 @@ static void opRtAis(int fill, int max, size_t n, int dj, int junk, const Bytes &
   int flen = std::max(r.len - fill, 0);
   GetRes g = doGet("getstr", pl, junk, n, dj, fill, fnGetStr2(flen, '@')); outGet(g, false); if (g.fault) return;
   if (!has(s, '@')) {
-    Bytes e; for (unsigned char c : take(s, std::min(max, 223 - fill))) e.push_back(aisRef(c));
-    checkText("C16:rtais:text", g, n, e); C.count("rt_checked");
+    bool ok; Bytes t = textOf(g.dst, ok);
+    Bytes in = take(take(s, std::min(max, 223 - fill)), n ? n - 1 : 0);
+    if (ok && n > 0 && !aisTextMatches(in, t))
+      C.fail("C16:rtais:text", "text read back is %s for input %s", hex(t.data(), t.size()).c_str(), hex(in.data(), in.size()).c_str());
+    C.count("rt_checked");
   }
   C.nontrivial("rtais " + std::to_string(max) + " " + std::to_string(n) + " " + std::to_string(s.size()));
 }
@@ -329,13 +343,23 @@ static void opRtVar(int fill, int max, int uni, int chars, size_t n, int dj, int
     int room = std::max(223 - fill - 2, 0);
     Bytes e; bool exact = true;
     if (u.pureAscii) e = take(s, std::min(max, room));
-    else if (!uni) { size_t k = std::min<size_t>(u.cps.size(), std::min(max, room)); for (size_t i = 0; i < k; i++) e.push_back(u.cps[i] < 0x80 ? u.cps[i] : '?'); }
-    else {
-      size_t B = std::min(room, chars ? 2 * max : max), k = std::min(u.cps.size(), B / 2);
-      for (size_t i = 0; i < k; i++) {       // a character that does not fit the destination ends the text
-        Bytes one; putUtf8(one, u.cps[i] > 0xFFFF ? '?' : u.cps[i]);
-        if (e.size() + one.size() > n - 1) break;
+    else if (!uni) {      // ASCII-only field: ASCII characters as they are, every other character as the node's replacement
+      size_t lim = std::min(max, room);
+      for (uint32_t cp : u.cps) {
+        Bytes one; if (cp < 0x80) one.push_back((unsigned char)cp); else one = g_repA[cp < 0x800 ? 2 : cp < 0x10000 ? 3 : 4];
+        if (e.size() + one.size() > lim) break;
         e.insert(e.end(), one.begin(), one.end());
+      }
+    }
+    else {                // UCS-2 field: whole characters at 2 bytes per unit; beyond the BMP -> the node's replacement
+      size_t B = std::min(room, chars ? 2 * max : max), units = 0;
+      size_t repUnits = classify(g_repU4).cps.size();
+      for (uint32_t cp : u.cps) {       // a character that does not fit the field or the destination ends the text
+        Bytes one; size_t un = 1;
+        if (cp > 0xFFFF) { one = g_repU4; un = repUnits; } else putUtf8(one, cp);
+        if (2 * (units + un) > B) break;
+        if (e.size() + one.size() > n - 1) break;
+        units += un; e.insert(e.end(), one.begin(), one.end());
       }
       exact = false;
     }
@@ -571,9 +595,36 @@ static void genGet(Rng &R) {
   }
 }
 
+// The property says characters the field cannot hold are "replaced" but not by what: ask the node.
+static Bytes probeVar(const Bytes &text, bool uni) {
+  tN2kMsg m; char *p = mallocStr(text);
+  m.AddVarStr(p, 255, uni ? tN2kMsg::vss_SupportUnicode : tN2kMsg::vss_ForceASCII, tN2kMsg::vsl_UseBytes, false); free(p);
+  char buf[64]; memset(buf, 0, sizeof buf); size_t sz = sizeof buf; int idx = 0; m.GetVarStr(sz, buf, idx);
+  return Bytes((unsigned char *)buf, (unsigned char *)buf + strlen(buf));
+}
+static void learnReplacements() {
+  static const Bytes mb[5] = {{}, {}, {0xC3, 0xA9}, {0xE2, 0x82, 0xAC}, {0xF0, 0x9F, 0x98, 0x80}};
+  auto middle = [](const Bytes &t, const Bytes &pre, unsigned char last, Bytes &out) {
+    if (t.size() < pre.size() + 2 || !std::equal(pre.begin(), pre.end(), t.begin()) || t.back() != last) return false;
+    out.assign(t.begin() + pre.size(), t.end() - 1); return true; };
+  Bytes in = mb[2]; in.insert(in.end(), mb[4].begin(), mb[4].end()); in.push_back('A');
+  Bytes r; Utf8Info ri;
+  if (middle(probeVar(in, true), mb[2], 'A', r) && (ri = classify(r)).valid) {
+    bool bmp = true; for (uint32_t cp : ri.cps) if (cp > 0xFFFF) bmp = false;
+    if (bmp) g_repU4 = r;
+  }
+  for (int k = 2; k <= 4; k++) {
+    Bytes a = {'A'}; a.insert(a.end(), mb[k].begin(), mb[k].end()); a.push_back('B');
+    if (middle(probeVar(a, false), Bytes{'A'}, 'B', r) && !has(r, 0xff)) g_repA[k] = r;
+  }
+  C.sample("replacements learned from the node: beyond-BMP in UCS-2 field -> " + hex(g_repU4.data(), g_repU4.size()) + "; 2/3/4-byte char in ASCII-only field -> " +
+           hex(g_repA[2].data(), g_repA[2].size()) + "/" + hex(g_repA[3].data(), g_repA[3].size()) + "/" + hex(g_repA[4].data(), g_repA[4].size()));
+}
+
 int main(int argc, char **argv) {
   C.init(argc, argv);
   guardInit();
+  learnReplacements();
   C.rule = "case = one op (an add, a get on an arbitrary payload, or an add followed by the matching get); non-trivial = the op ran to "
            "completion; distinct = hash of (kind, fill, maximum, policy, destination size, string prefix)";
   if (!C.replay.empty()) { for (auto &l : readLines(C.replay)) exec(l); C.finish(); return 0; }
